@@ -118,6 +118,7 @@ static int add_node(const char *path, const void *data, size_t len, int mode, in
 int simfs_add_file(const char *path, const void *data, size_t len, int mode) { return add_node(path, data, len, mode, 0); }
 int simfs_add_dir(const char *path) { return add_node(path, "", 0, 0755, 1); }
 int simfs_add_dangling(const char *path) { int i = add_node(path, "", 0, 0777, 0); if (i >= 0) nodes[i].dangling = 1; return i; }
+int simfs_add_looping_link(const char *path) { int i = add_node(path, "", 0, 0777, 0); if (i >= 0) nodes[i].dangling = 2; return i; }      /* a symbolic link that leads back to itself: stat() says ELOOP, not ENOENT */
 int simfs_exists(const char *path) { return find_node(path) >= 0; }
 int simfs_mode(const char *path) { int i = find_node(path); return i < 0 ? -1 : nodes[i].mode; }
 void simfs_set_cwd(const char *path) { norm(path, cwd); }
@@ -237,7 +238,7 @@ int sim_access(const char *path, int amode)
     int i;
     sim_step();
     i = find_node(path);
-    if (i < 0 || nodes[i].dangling) { errno = ENOENT; return -1; }
+    if (i < 0 || nodes[i].dangling) { errno = i >= 0 && nodes[i].dangling == 2 ? ELOOP : ENOENT; return -1; }
     if ((amode & R_OK) && !(nodes[i].mode & 0400)) { errno = EACCES; return -1; }
     return 0;
 }
@@ -247,7 +248,7 @@ int sim_stat(const char *path, struct stat *st)
     sim_step();
     i = find_node(path);
     if (i < 0) return -1;
-    if (nodes[i].dangling) { probe_hit("stat_failed_for_a_listed_name"); tr_printf("stat %.60s -> ENOENT (listed, gone)", path); errno = ENOENT; return -1; }      /* (what the caller's struct stat held before stays as it was) */
+    if (nodes[i].dangling) { probe_hit("stat_failed_for_a_listed_name"); tr_printf("stat %.60s -> %s (listed, cannot be followed)", path, nodes[i].dangling == 2 ? "ELOOP" : "ENOENT"); errno = nodes[i].dangling == 2 ? ELOOP : ENOENT; return -1; }      /* (what the caller's struct stat held before stays as it was) */
     memset(st, 0, sizeof(*st));
     st->st_mode = (mode_t)((nodes[i].isdir ? S_IFDIR : S_IFREG) | nodes[i].mode);
     st->st_size = (off_t)nodes[i].len;
